@@ -155,7 +155,7 @@ pub fn run(env: &Env) -> PropRun {
         .iter()
         .map(|&(cols, rows)| {
             let cmds = commands(cols);
-            let dims = [rows, cols + 1, PENS.len(), 2, MODES.len(), cmds.len()];
+            let dims = [rows, cols + 1, PENS.len(), 3, MODES.len(), cmds.len()];
             let total = product(&dims);
             Block { cols, rows, cmds, dims, total }
         })
@@ -166,7 +166,7 @@ pub fn run(env: &Env) -> PropRun {
             if i < b.total {
                 let d = radix(i, &b.dims)?;
                 let (row, col) = (d[0], d[1]);
-                let mut s = gen::fill_screen(b.cols, b.rows, d[3] == 0);
+                let mut s = gen::fill_screen_mode(b.cols, b.rows, d[3]);
                 s.push_str(PENS[d[2]]);
                 // modes first (?6h homes), then the cursor; with origin mode on and full
                 // margins CUP still reaches every row
@@ -194,7 +194,7 @@ pub fn run(env: &Env) -> PropRun {
         "enum-tiny",
         total,
         true,
-        "sizes {1x1,2x1,1x3,3x2,4x3,8x2,9x3,16x2} x every cursor cell incl. wrap-pending x 3 pens x {wrapped, unwrapped} content x 4 mode set-ups x {ED 0-2, EL 0-2, ECH/ICH/DCH x count classes, DECALN}; each also with the mode-frame metamorphic check",
+        "sizes {1x1,2x1,1x3,3x2,4x3,8x2,9x3,16x2} x every cursor cell incl. wrap-pending x 3 pens x {wrapped, unwrapped, sparse} content x 4 mode set-ups x {ED 0-2, EL 0-2, ECH/ICH/DCH x count classes, DECALN}; each also with the mode-frame metamorphic check",
         &make,
         &j,
     ));
